@@ -141,6 +141,21 @@ class Ctx:
             # under test valid inputs only, so a panic raised *inside the repository's sources* that kills the
             # harness is a counterexample (the function has no value there), not a machinery failure. For all other
             # properties a dying harness stays inconclusive.
+            # Properties whose statement excludes aborts on hostile input (C12, C13): the workload hands untrusted bytes
+            # to the entry points inside catch_unwind, so a harness process that is killed by SIGABRT / SIGSEGV / SIGILL /
+            # SIGBUS (an allocation failure on an attacker-declared length, a stack overflow, an abort in a destructor)
+            # has observed exactly what the statement forbids. SIGKILL (the kernel's OOM killer, the watchdog) stays
+            # inconclusive.
+            if p.returncode in (-6, -11, -4, -7) and self.prop in ABORT_FREEDOM_PROPS:
+                tail = [l for l in p.stderr.splitlines() if l.strip()][-6:]
+                what = "allocation-failure" if "memory allocation of" in p.stderr else "signal%d" % (-p.returncode)
+                r = {"evaluations": 0, "strata_all": [], "samples": [], "inconclusive": {}, "counters": {}, "notes": {},
+                     "violations": [{"sig": "process-aborted-on-untrusted-input:%s" % what, "count": 1,
+                                     "details": [{"signal": -p.returncode, "stderr_tail": tail, "step": tag,
+                                                  "note": "the harness process died inside a guarded call of an entry point fed with untrusted bytes; the rest of the workload was not executed"}]}],
+                     "_step": tag, "_secs": round(time.time() - t, 1)}
+                self.results.append(r)
+                return None
             mo = re.search(r"\[vh\] harness panic: (.*) at (/repo/(?:rln|utils)/src/[^\s:]+)", p.stderr)
             if p.returncode == 101 and mo and self.prop in TOTAL_FUNCTION_PROPS:
                 f = mo.group(2).split("/src/", 1)[1]
@@ -176,6 +191,14 @@ class Ctx:
             self.inconclusive.append("watchdog: %s did not finish in %ds" % (tag, timeout))
             return None
         err = p.stderr
+        # the same-kind bursts of C18 end the process with this marker when calls wait for each other
+        mo = re.search(r"\[vh\] NO-PROGRESS kind=(\S+) (.*)", err)
+        if p.returncode == 86 and mo:
+            self.results.append({"_step": tag, "evaluations": 0, "strata_all": [], "samples": [], "counters": {}, "notes": {},
+                                 "violations": [{"sig": "shared-instance:no-progress:%s" % mo.group(1), "count": 1,
+                                                 "details": [{"monitor": mo.group(0), "note": "barrier-released threads making the same call on one shared instance; no call completed for 120 s while calls were outstanding (deadlock); the rest of the workload was not executed"}]}],
+                                 "_secs": round(time.time() - t, 1)})
+            return None
         reports = []
         lines = err.splitlines()
         for i, l in enumerate(lines):
@@ -189,7 +212,6 @@ class Ctx:
         res["_secs"] = round(time.time() - t, 1)
         res.setdefault("notes", {})["%s_reports" % kind] = len(reports)
         res.setdefault("counters", {})["%s_runs" % kind] = 1
-        import re
         if kind == "tsan":
             # attribution rule (DESIGN.md section 0): a race report counts only if one of its stacks runs through
             # repository code; reports entirely inside dependencies (sled's Arc drop with a stand-alone fence,
@@ -263,7 +285,6 @@ class Ctx:
         res = {"_step": tag, "evaluations": 0, "strata_all": [], "violations": [], "samples": [], "counters": {"miri_runs": 1},
                "notes": {}, "_secs": round(time.time() - t, 1),
                "rule": "Miri: FFI buffer handling around ffi::hash (raw pointers, leaked output), byte codecs and graph operators on boundary operands interpreted with undefined-behaviour checks"}
-        import re
         m = re.search(r"MIRI-PURE-OK (\d+)", p.stdout)
         if "Undefined Behavior" in p.stderr or "error: unsupported operation" in p.stderr and not m:
             i = p.stderr.find("Undefined Behavior")
@@ -319,6 +340,7 @@ class BuildFailed(Exception):
 
 
 TOTAL_FUNCTION_PROPS = {"C03", "C04", "C05", "C09", "C10", "C14", "C19", "C20"}
+ABORT_FREEDOM_PROPS = {"C12", "C13"}
 
 
 def load_known(verif):
